@@ -190,13 +190,14 @@ def get_lonlatalt(pos, utc_time):
     lon = np.where(lon > np.pi, lon - np.pi * 2, lon)
     lon = np.where(lon <= -np.pi, lon + np.pi * 2, lon)
 
-    r = np.sqrt(pos_x ** 2 + pos_y ** 2)
+    r = np.sqrt(pos_x * pos_x + pos_y * pos_y)
     lat = np.arctan2(pos_z, r)
     e2 = F * (2 - F)
 
     while True:
         lat2 = lat
-        c = 1 / (np.sqrt(1 - e2 * (np.sin(lat2) ** 2)))
+        sin_lat2 = np.sin(lat2)
+        c = 1 / (np.sqrt(1 - e2 * (sin_lat2 * sin_lat2)))
         lat = np.arctan2(pos_z + c * e2 * np.sin(lat2), r)
         if np.all((abs(lat - lat2) < 1e-10) | np.isnan(lat)):
             break
